@@ -3,7 +3,6 @@
 package main
 
 import (
-	"encoding/json"
 	"fmt"
 	"strconv"
 	"time"
@@ -241,7 +240,7 @@ func c12Run(r *vkit.Run) {
 
 func c12Replay(r *vkit.Run, v vkit.Violation) *vkit.Violation {
 	var in c12Input
-	if err := json.Unmarshal(v.Input, &in); err != nil {
+	if err := vkit.DecodeInput(v, &in); err != nil {
 		r.HarnessError("bad input: %v", err)
 	}
 	if v.Check == "C12/map-order" {
